@@ -382,6 +382,9 @@ def add_depths(rng, spec, *, max_layers=4, n_depths=None):
         attrs = {'positive': written, 'long_name': name}
         if rng.random() < 0.5:
             attrs['axis'] = 'Z'
+            if rng.random() < 0.3:
+                # no `positive` attribute: the sign convention has to be guessed from the values (emsarray warns and guesses)
+                del attrs['positive']
         depths.append({'name': name, 'dim': dim, 'values': vals, 'attrs': attrs, 'positive': positive,
                        'order': order, 'nk': nk})
     if rng.random() < 0.15 and not spec['conv'].startswith('shoc'):
